@@ -90,9 +90,12 @@ class RunCtx(object):
         return h.hexdigest()[:16]
 
 
-def reset_falcon_caches():
-    """Canonical start state (DESIGN 3.9)."""
+_CLEARERS = None
+
+
+def _find_clearers():
     mods = sys.modules
+    out = []
     for name in ('falcon.util.misc', 'falcon.util.mediatypes', 'falcon.media.handlers',
                  'falcon.asgi.ws', 'falcon.util.uri', 'falcon.routing.converters',
                  'falcon.request_helpers', 'falcon.util.structures', 'falcon.response',
@@ -101,19 +104,30 @@ def reset_falcon_caches():
         m = mods.get(name)
         if m is None:
             continue
-        for v in list(vars(m).values()):
+        for key in sorted(vars(m)):
+            v = vars(m)[key]
             cc = getattr(v, 'cache_clear', None)
             if cc is not None and callable(cc):
-                try:
-                    cc()
-                except Exception:
-                    pass
+                out.append(cc)
     m = mods.get('falcon.asgi.request')
     if m is not None:
         try:
             for d in m.Request.get_header.__defaults__ or ():
                 if isinstance(d, dict):
-                    d.clear()
+                    out.append(d.clear)
+        except Exception:
+            pass
+    return out
+
+
+def reset_falcon_caches():
+    """Canonical start state (DESIGN 3.9): clear every process-wide cache."""
+    global _CLEARERS
+    if _CLEARERS is None:
+        _CLEARERS = _find_clearers()
+    for cc in _CLEARERS:
+        try:
+            cc()
         except Exception:
             pass
 
